@@ -495,7 +495,10 @@ pub fn exec(c: &mut Case, real: &mut BinArchive, model: &mut RefArchive, op: &Op
     ok
 }
 
-pub const VALUES: [u32; 10] = [
+pub const VALUES: [u32; 13] = [
+    0x0000_8000, // i16::MIN in the low half
+    0xFFFF_8000,
+    0x8000_7FFF,
     0,
     0xFFFF_FFFF,
     0x0102_0304,
